@@ -59,6 +59,11 @@ def cases(draw, cfg):
     vals = draw(st.lists(A.values(cfg), min_size=3, max_size=6))
     ki, vi = st.integers(0, nk - 1), st.integers(0, len(vals) - 1)
     writer = draw(st.sampled_from(['inproc', 'inproc', 'forked', 'worker']))
+    if writer == 'worker' and cfg in ('file_pkl', 'dir_dill') and draw(st.booleans()):
+        # a value that is an instance of a class defined in the WRITER's main script (the worker interpreter's __main__): the dill-based codecs
+        # store such a class by value, so readers whose __main__ is another script (this harness, its forks) must see the value all the same
+        vals = vals + [['M', ['i', draw(st.integers(0, 9))]]]
+        ki, vi = st.integers(0, nk - 1), st.sampled_from([len(vals) - 1] * 2 + list(range(len(vals) - 1)))
     segs = []
     for _ in range(draw(st.integers(1, 4))):
         ops = []
@@ -137,7 +142,7 @@ def _norm_ops(ops, nvals):
 
 def _history(case, root):
     cfg = case['cfg']
-    classes = ['cfg:' + cfg, 'writer:' + case['writer']]
+    classes = ['cfg:' + cfg, 'writer:' + case['writer']] + (['value_of_class_in_writers_main'] if any(sp[0] == 'M' for sp in case['vals']) else [])
     out = []
     keys = [A.build_key(s) for s in case['keys']]
     vspecs = _worker_vals(case)
@@ -482,6 +487,6 @@ def _session(case, root):
     return out, nt, classes
 
 
-REQUIRED_CLASSES = ['failing_bulk_write', 'view:items', 'view:keys', 'view:get', 'overwrite', 'otherproc_read', 'samesize_overwrite', 'mutated_after_store', 'session', 'rebuild:copy', 'rebuild:dill', 'rebuild:cached-load',
+REQUIRED_CLASSES = ['value_of_class_in_writers_main', 'failing_bulk_write', 'view:items', 'view:keys', 'view:get', 'overwrite', 'otherproc_read', 'samesize_overwrite', 'mutated_after_store', 'session', 'rebuild:copy', 'rebuild:dill', 'rebuild:cached-load',
                     'rebuild:pickled-cache', 'writer:inproc', 'writer:forked', 'writer:worker'] + ['reader:' + r for r in READERS] + ['cfg:' + c for c in CONFIGS]
 TRIGGERS = {}
